@@ -185,6 +185,8 @@ PROPS = {
              "bound": "every string of 3 chars over the escape alphabet: the written token denotes the same value", "timeout": 300, "extra_modules": ["tokenizer"]},
             {"engine": "E2", "module": "parser", "harness": "h_str_roundtrip_unicode_2", "functions": ["writer::Writer::add_quoted_string", "parser::unescape_string"],
              "bound": "multi-byte character + 2 chars over the escape alphabet", "timeout": 300, "extra_modules": ["tokenizer"]},
+            {"engine": "E2", "module": "lib", "harness": "h_sample_roundtrip", "msg_prefix": "C02", "functions": ["load_from_string", "A2lFile::write_to_string", "specification::*::parse / stringify of every element kind in the sample"],
+             "bound": "the repository's own 340-line sample document: the written text has the same significant tokens in the same order (numbers by value)", "timeout": 600, "extra_modules": ["tokenizer"], "max_steps": 50000000},
             {"engine": "E2", "module": "lib", "harness": "h_ifdata_uninterpreted", "functions": ["ifdata::parse_unknown_ifdata_start", "ifdata::parse_unknown_ifdata", "ifdata::parse_unknown_taggedstruct", "a2ml::GenericIfData::write_item"],
              "bound": "11 payloads of an IF_DATA no specification describes: small / negative / hex / > 32 bit decimal / > 32 bit hex / floats / string+ident / nested blocks / repeated sibling blocks / repeated keywords", "timeout": 300, "extra_modules": ["tokenizer"]},
         ],
@@ -214,6 +216,8 @@ PROPS = {
         ] + [
             {"engine": "E2", "module": "parser", "harness": "h_float_roundtrip", "functions": ["writer::Writer::add_float", "tokenizer::tokenize_core", "parser::ParserState::get_double"],
              "bound": "30 concrete f64 values (zero, tiny, subnormal, huge, format thresholds 1e-4 / 1e10, values needing 17 digits); enumerated, not symbolic", "timeout": 300, "extra_modules": ["tokenizer"]},
+            {"engine": "E2", "module": "lib", "harness": "h_sample_roundtrip", "msg_prefix": "C01", "functions": ["load_from_string", "A2lFile::write_to_string", "specification::*::parse / stringify of every element kind in the sample"],
+             "bound": "the repository's own 340-line sample document (every element kind once): load, write, load, write (one concrete path)", "timeout": 600, "extra_modules": ["tokenizer"], "max_steps": 50000000},
             {"engine": "E2", "module": "lib", "harness": "h_ifdata_definitions", "msg_prefix": "C01", "functions": ["load_from_string", "tokenizer::handle_a2ml", "A2ml::stringify", "a2ml::GenericIfData::write", "A2lFile::write_to_string"],
              "bound": "5 A2ML definitions x {conforming, deviating IF_DATA} x {LF, CRLF}: reload equal, second write identical", "timeout": 400, "extra_modules": ["tokenizer"]},
         ],
